@@ -108,6 +108,12 @@ CHECKS = {
         "Trusted base: model.rs accept_reply + sem.rs parse_number (A17). Undocumented spellings (INF/NAN, signed radix digits) are not generated; side effects of rejected replies are not asserted.",
         "6 C17",
     ),
+    "C18": (
+        "proptest-generated terminating bodies iterated in a loop with the value-stack depth sampled at every loop head through the verif-hooks probe (stateful invariant), a 70000-iteration public-API run, generated set/zero sequences against a live-variable count model, and an enumeration of 18 limit scenarios",
+        "Exploration of the history space 'same statement sequence, any number of times': a one-value leak per iteration is visible after two iterations in the probe and after 65536 iterations without it; variable slots are compared with a count model after every assignment; every pool (value stack via GOSUB/FN/FOR/ON..GOSUB, variables, DATA, code, line length) is driven past its limit and the session must answer PRINT 1+1, NEW, a fresh program and an assignment afterwards.",
+        "The probe is read-only and only used for the residue and slot counts; the long run and the limit scenarios use public events only. Abandoned FOR/GOSUB frames are legitimate stack use and are excluded by construction.",
+        "6 C18",
+    ),
     "C19": (
         "fault injection into proptest-generated programs (dangling targets in every referencing form, deleted lines, unmatched WHILE/WEND, token damage, multi-byte text before the fault) with the canonical printer's span table as oracle for error positions; execution gate observed with TRON",
         "Exploration with an exact positional oracle: the harness knows the character span of every line-number operand and WHILE/WEND keyword in the listed text, so the set of UNDEFINED LINE / WHILE WITHOUT WEND / WEND WITHOUT WHILE diagnostics and LIST's underline ranges must equal the injected faults as multisets; every diagnostic must lie inside its listed line; with TRON on, RUN, RUN n, GOTO n, GOSUB n, IF..THEN n, ON..GOTO/GOSUB n and CONT must not trace or print anything while PRINT 6*7 still works.",
